@@ -95,6 +95,9 @@ def gen_case(seed):
     # listing command (relative or absolute); names that look like `ls` switches included
     case["dname"] = rnd.choice(["dir", "dir", "dir", "-a", "-la", "-l x", "d e", "-R"])
     case["how"] = rnd.choice(["cwd", "cwd", "relative", "absolute"])
+    # a raw session asks for the listing, then changes its working directory, and only then
+    # makes the data connection: the entries are those of the directory the command named
+    case["late"] = rnd.choice([None, None, ["CDUP"], ["CWD /"], ["CWD /elsewhere"]])
     return case
 
 
@@ -162,6 +165,9 @@ def _run_case(case):
         d = aioftp.pathio.Node("dir", dname, content=[])
         d.mtime = d.ctime = case["now"] - 1000
         root.content.append(d)
+        el = aioftp.pathio.Node("dir", "elsewhere", content=[aioftp.pathio.Node("file", "not-here", content=io.BytesIO(b"x"))])
+        el.mtime = el.ctime = el.content[0].mtime = el.content[0].ctime = case["now"] - 1000
+        root.content.append(el)
         for e in entries:
             if e["type"] == "dir":
                 n = aioftp.pathio.Node("dir", e["name"], content=[])
@@ -229,6 +235,34 @@ def _run_case(case):
                 truth.clear()
                 truth.update(saved)
             await client.quit()
+            if case.get("late"):
+                from simftp import conform
+                from simftp.peers import PeerGone, RawPeer, ReplyTimeout
+
+                peer = RawPeer(world, "raw", reply_timeout=200.0)
+                try:
+                    await peer.connect()
+                    await peer.login()
+                    verbs = ["LIST"] if case.get("no_mlsx") else ["MLSD", "LIST"]
+                    for verb in verbs:
+                        await peer.cmd("CWD /" + dname)
+                        await peer.passive("EPSV")
+                        code, _ = await peer.cmd(verb)
+                        if code[0] != "1":
+                            continue
+                        between = [(await peer.cmd(line))[0] for line in case["late"]]
+                        await peer.data_connect()
+                        data, _how = await peer.recv_all(timeout=100.0)
+                        peer.data_close()
+                        final = (await peer.reply(100.0))[0]
+                        names = sorted(conform.listing_names(verb, data))
+                        info["late_listings"] = info.get("late_listings", 0) + 1
+                        if final[0] == "2" and names != sorted(truth):
+                            viol.append({"clause": "entries-differ", "subject": f"{verb}:commands-before-data-connection", "detail": f"CWD /{dname}, {verb} (150), then {case['late']} (answered {between}), then the data connection: listed {names}, the directory holds {sorted(truth)}"})
+                    await peer.cmd("QUIT")
+                except (PeerGone, ReplyTimeout, OSError) as e:
+                    viol.append({"clause": "listing-failed", "subject": "commands-before-data-connection", "detail": f"raw session: {type(e).__name__}"})
+                peer.close()
             await asyncio.sleep(1)
             await asyncio.wait_for(server.close(), 1e4)
 
@@ -254,7 +288,7 @@ def _run_case(case):
             "events": world.net.seq,
             "steps": world.loop.steps,
             "outcome": world.outcome,
-            "counters": {"entries_checked": info["entries_checked"], "entries_in_ambiguity_window_(modify_not_compared)": info["skipped_ambiguous"], "faults.clock_jump_between_listings": int(bool(case.get("jump")))},
+            "counters": {"entries_checked": info["entries_checked"], "entries_in_ambiguity_window_(modify_not_compared)": info["skipped_ambiguous"], "faults.clock_jump_between_listings": int(bool(case.get("jump"))), "probe.listings_with_commands_before_the_data_connection": info.get("late_listings", 0)},
             "groups": {"tz": {case["tz"]: 1}, "server": {"no-mlsx" if case.get("no_mlsx") else "mlsx": 1}},
             "violations": out,
         }
@@ -354,7 +388,7 @@ def main(argv=None):
         print("not reproduced")
         return 0
     quick = a.tier == "quick"
-    ev = common.Evidence(PROP, a.tier, a.seed, "exploration", "seeded disk images (0..12 entries, files 0..2^40 bytes, directories, mtimes over 1971..2037 biased to now / now - half year / New Year / Feb 28-29 / future) x seeded wall clock 'now' (biased to New Year, end of February, mid year) with optional clock jump between listings x process time zone in {UTC, Europe/Berlin, Asia/Kolkata, America/New_York} x server with or without MLSD/MLST x the listed directory entered first or named in the command (relative / absolute; names like '-a', '-l x' included); real client lists (MLSD, LIST, default) and stats; names / types / sizes always compared, modify compared to the format's precision except inside the one-day half-year ambiguity window; non-trivial = at least one entry compared; distinct = distinct run digests.  pure_subcheck.ls_date_roundtrips counts function-level parse(format(mtime, now), now) evaluations")
+    ev = common.Evidence(PROP, a.tier, a.seed, "exploration", "seeded disk images (0..12 entries, files 0..2^40 bytes, directories, mtimes over 1971..2037 biased to now / now - half year / New Year / Feb 28-29 / future) x seeded wall clock 'now' (biased to New Year, end of February, mid year) with optional clock jump between listings x process time zone in {UTC, Europe/Berlin, Asia/Kolkata, America/New_York} x server with or without MLSD/MLST x the listed directory entered first or named in the command (relative / absolute; names like '-a', '-l x' included), and by a raw session that changes its working directory between the 1xx mark and the data connection; real client lists (MLSD, LIST, default) and stats; names / types / sizes always compared, modify compared to the format's precision except inside the one-day half-year ambiguity window; non-trivial = at least one entry compared; distinct = distinct run digests.  pure_subcheck.ls_date_roundtrips counts function-level parse(format(mtime, now), now) evaluations")
     rep = common.Reporter(PROP, ev)
     deadline = _time.time() + (a.budget or (60 if quick else 1200))
     n = 3000 if quick else 400000
